@@ -4,6 +4,7 @@ import TurnModel.Model.Framer
 import TurnModel.Model.PortRange
 import TurnModel.Model.LtCred
 import TurnModel.Model.Nonce
+import TurnModel.Model.FiveTuple
 namespace Drv
 open Turn
 
@@ -20,6 +21,11 @@ def protoStep (toks : List String) : Option String :=
       | .ok (n, d) => s!"ok {n} {toHex d}"
       | .error .eof => "err eof" | .error .badNumber => "err badnumber" | .error .badLength => "err badlength")
   | ["ischan", b] => some (toString (isChannelData (parseHex b)))
+  | ["fp", p1, si1, sp1, di1, dp1, p2, si2, sp2, di2, dp2] =>
+    -- FiveTuple.Equal on two 5-tuples (internal/allocation/five_tuple.go)
+    let t1 : FT.Tuple := ⟨natOf p1, ⟨parseHex si1, natOf sp1⟩, ⟨parseHex di1, natOf dp1⟩⟩
+    let t2 : FT.Tuple := ⟨natOf p2, ⟨parseHex si2, natOf sp2⟩, ⟨parseHex di2, natOf dp2⟩⟩
+    some (if FT.equal t1 t2 then "eq" else "ne")
   | ["consume", b] =>
     some (match consume (parseHex b) with
       | .ok n => s!"ok {n}" | .incomplete => "incomplete" | .invalid => "invalid")
